@@ -516,6 +516,7 @@ impl<Front: SocketHandler> ConnectionH1<Front> {
             let edits = std::mem::take(&mut parts.context.headers_response);
             super::shared::apply_response_header_edits(kawa, &edits);
         }
+        super::shared::drop_trailers_of_length_framed_message(kawa);
         kawa.prepare(&mut kawa::h1::BlockConverter);
         let mut io_slices = Vec::new();
         for block in kawa.out.iter() {
